@@ -1754,6 +1754,31 @@ def check_optional_categories(ctx, tu):
            'constructs', 'rkcommon/utility/Optional.h', nontrivial=False)
 
 
+def check_optional_conversions(ctx, tu):
+    R = 'R-C09-15'
+    ctx.describe(R, 'an Optional does not convert implicitly to bool / an arithmetic type (`operator bool` is explicit): otherwise the forwarding '
+                    '`operator=(U &&)` - the better match for a non-const Optional lvalue - accepts an Optional as a *value* and stores '
+                    'bool(rhs) in the payload')
+    n = 0
+    for v in tu.nodes.values():
+        nm = v.get('name') or ''
+        if v.get('kind') != 'VarDecl' or not (nm.startswith('optional_') and '_converts_to_' in nm) or not tu.kids(v):
+            continue
+        cv = tu.sd(tu.kids(v)[-1]).get('cv')
+        n += 1
+        what = nm.replace('optional_', 'Optional<').replace('_converts_to_', '> -> ')
+        if cv == '0':
+            ctx.ok(R, what, 'std::is_convertible is false', 'drivers/wrappers.cpp')
+        elif cv is None:
+            ctx.undecided(R, what, 'the trait was not evaluated by the front end', 'drivers/wrappers.cpp')
+        else:
+            ctx.violation(R, what, 'an Optional lvalue converts implicitly to the payload-like type (a non-explicit conversion operator): `a = b` with '
+                          'a non-const Optional `b` now compiles through the value template `operator=(U &&)` and stores bool(b) - an engaged '
+                          'source holding 5 leaves 1, an empty source leaves an engaged 0', 'rkcommon/utility/Optional.h',
+                          key='%s|rkcommon/utility/Optional.h|Optional|implicit-conversion-to-payload' % R)
+    ctx.floor(R, n, 3, 'conversion traits in drivers/wrappers.cpp')
+
+
 def check_holder_destructor(ctx, tu):
     R = 'R-C09-14'
     ctx.describe(R, 'Any owns its payload through a pointer to the holder base class and deletes it through that pointer: the base class has a '
@@ -1911,6 +1936,7 @@ def run(ctx):
     check_any(ctx, tu)
     check_any_categories(ctx, tu)
     check_optional_categories(ctx, tu)
+    check_optional_conversions(ctx, tu)
     check_holder_destructor(ctx, tu)
     check_any_mirrors(ctx, tu)
     check_demangle(ctx)
